@@ -64,11 +64,11 @@ def query(region, xs, ys, how):
     return out, shp
 
 
-def check_result_form(ctx, out, shp, s, what):
+def check_result_form(ctx, out, shp, s, what, pid='C01'):
     ok = isinstance(out, np.ndarray) and out.dtype == np.bool_ and out.shape == shp
     if not ok:
         form = f'{type(out).__name__}{getattr(out, "shape", "")}{getattr(out, "dtype", "")}'
-        ctx.violation(f"C01|form|{s['k']}|{what}", f'contains({what} query of shape {shp}) returned {form}',
+        ctx.violation(f"{pid}|form|{s['k']}|{what}", f'contains({what} query of shape {shp}) returned {form}',
                       {'shape': s, 'query_shape': list(shp), 'returned': form})
     return ok
 
@@ -80,7 +80,7 @@ def scalar_form_ok(out):
     return isinstance(out, np.ndarray) and out.shape == () and out.dtype == np.bool_
 
 
-def replay_state(ctx, rnd, s, win, wlo, whi, idx):
+def replay_state(ctx, rnd, s, win, wlo, whi, idx, pid='C01'):
     from regions import PixCoord
     U = 2
     xs_u, ys_u = geom.window(wlo, whi)
@@ -89,7 +89,7 @@ def replay_state(ctx, rnd, s, win, wlo, whi, idx):
     try:
         region = geom.build(s, fr)
     except Exception as ex:  # the model only proposes valid shapes
-        ctx.violation(f"C01|build|{s['k']}|{type(ex).__name__}", f'constructing a valid {s["k"]} raised {ex!r}', {'shape': s})
+        ctx.violation(f"{pid}|build|{s['k']}|{type(ex).__name__}", f'constructing a valid {s["k"]} raised {ex!r}', {'shape': s})
         return
     xs = xs_u / U * fr.scale + fr.tx
     ys = ys_u / U * fr.scale + fr.ty
@@ -102,9 +102,9 @@ def replay_state(ctx, rnd, s, win, wlo, whi, idx):
     try:
         out, shp = query(region, xs, ys, how)
     except Exception as ex:
-        ctx.violation(f"C01|contains|{s['k']}|{type(ex).__name__}", f'contains raised {ex!r}', {'shape': s})
+        ctx.violation(f"{pid}|contains|{s['k']}|{type(ex).__name__}", f'contains raised {ex!r}', {'shape': s})
         return
-    if not check_result_form(ctx, out, shp, s, f'{how}-{xs.dtype}'):
+    if not check_result_form(ctx, out, shp, s, f'{how}-{xs.dtype}', pid):
         return
     real = out.reshape(-1).astype(int)
     care = model != 2
@@ -114,7 +114,7 @@ def replay_state(ctx, rnd, s, win, wlo, whi, idx):
     ctx.case(('contains', key), geom.nontrivial_answers(model))
     if len(bad):
         i = int(bad[0])
-        ctx.violation(f"C01|member|{kind_sig(s)}", f'{len(bad)} of {int(care.sum())} window points answered differently from the exact model',
+        ctx.violation(f"{pid}|member|{kind_sig(s)}", f'{len(bad)} of {int(care.sum())} window points answered differently from the exact model',
                       {'shape': s, 'frame': vars(fr), 'first_bad_point_units': [int(xs_u[i]), int(ys_u[i])],
                        'model': int(model[i]), 'real': int(real[i])})
     elif idx % 997 == 0:
@@ -128,23 +128,23 @@ def replay_state(ctx, rnd, s, win, wlo, whi, idx):
                 o1 = region.contains(pc)
                 o2 = pc in region
             except Exception as ex:
-                ctx.violation(f"C01|scalar|{s['k']}|{type(ex).__name__}", f'scalar contains raised {ex!r}', {'shape': s})
+                ctx.violation(f"{pid}|scalar|{s['k']}|{type(ex).__name__}", f'scalar contains raised {ex!r}', {'shape': s})
                 break
             ctx.case(None, False)
             if not scalar_form_ok(o1):
-                ctx.violation(f"C01|form|{s['k']}|scalar", f'contains(scalar) returned {type(o1).__name__} of shape {getattr(o1, "shape", None)}, not a plain bool',
+                ctx.violation(f"{pid}|form|{s['k']}|scalar", f'contains(scalar) returned {type(o1).__name__} of shape {getattr(o1, "shape", None)}, not a plain bool',
                               {'shape': s, 'returned_shape': list(getattr(o1, 'shape', []))})
                 break
             if bool(np.all(o1)) != bool(model[j]) or bool(o2) != bool(model[j]):
-                ctx.violation(f"C01|member-scalar|{kind_sig(s)}", 'scalar query answered differently from the exact model',
+                ctx.violation(f"{pid}|member-scalar|{kind_sig(s)}", 'scalar query answered differently from the exact model',
                               {'shape': s, 'frame': vars(fr), 'point_units': [int(xs_u[j]), int(ys_u[j])], 'model': int(model[j])})
                 break
         try:
             o0 = region.contains(PixCoord(np.zeros((0,)), np.zeros((0,))))
             if not (isinstance(o0, np.ndarray) and o0.shape == (0,)):
-                ctx.violation(f"C01|form|{s['k']}|empty", f'contains(0-length) returned shape {getattr(o0, "shape", None)}', {'shape': s})
+                ctx.violation(f"{pid}|form|{s['k']}|empty", f'contains(0-length) returned shape {getattr(o0, "shape", None)}', {'shape': s})
         except Exception as ex:
-            ctx.violation(f"C01|form|{s['k']}|empty", f'contains(0-length) raised {ex!r}', {'shape': s})
+            ctx.violation(f"{pid}|form|{s['k']}|empty", f'contains(0-length) raised {ex!r}', {'shape': s})
 
 
 def kind_sig(s):
